@@ -32,14 +32,14 @@ Definition of_pa (r : pa_result) : sx :=
   end.
 
 (* offset 0: PreferenceAddition(coefficients, split_equal_rankings).evaluate(votes, n)
-   args: (coefspec split votes n) ; votes = dict ranked ballot -> Q in insertion order,
+   args: (fx coefspec split votes n) ; fx = 1 when the implementation has the repaired splicing loop ; votes = dict ranked ballot -> Q in insertion order,
    a shared rank is the list of its members in the iteration order of the frozenset *)
 Definition u_preference_addition (a : sx) : sx :=
   match a with
-  | L [cs; sp; v; n] =>
-      match as_coefspec cs, as_bool sp, as_dict (as_listof as_item17) as_Q v, as_nat n with
-      | Some cs, Some sp, Some votes, Some n => of_pa (pa_evaluate cs sp votes n)
-      | _, _, _, _ => bad_input
+  | L [fx; cs; sp; v; n] =>
+      match as_bool fx, as_coefspec cs, as_bool sp, as_dict (as_listof as_item17) as_Q v, as_nat n with
+      | Some fx, Some cs, Some sp, Some votes, Some n => of_pa (pa_evaluate fx cs sp votes n)
+      | _, _, _, _, _ => bad_input
       end
   | _ => bad_input
   end.
